@@ -38,7 +38,7 @@ def strip_after(e):
 def frames_on_path(f, p):
     """[(k, fields dict, term)] for StreamState aggregates pushed on the stack along the path, plus array-literal frames"""
     out = []
-    for (k, bid, callee, args, t) in path_calls(p):
+    for (k, bid, callee, args, t) in path_calls(p, expand=True):
         if isinstance(callee, str) and callee.endswith('::push') and arg_loc(f, t, 0) == (1, 'stack'):
             v = args[1]
             if v[0] == 'agg' and v[1] == FRAME:
@@ -105,7 +105,7 @@ def seek_rules(ctx, R41, R42, R34, R36, want_c03=True, want_c04=True, R35s=None)
     paths = explore(f, max_visits=1, havoc=True, limit=4000)
     seen = {'some': 0, 'none': 0, 'excl': 0, 'incl': 0, 'empty': 0}
     for p in paths:
-        calls = path_calls(p)
+        calls = path_calls(p, expand=True)
         frames = frames_on_path(f, p)
         fi = None      # decision on find_input in this iteration
         it_end = None  # did the key loop end
@@ -230,7 +230,7 @@ def seek_rules(ctx, R41, R42, R34, R36, want_c03=True, want_c04=True, R35s=None)
     # --- lock step of stack and key buffer over the whole seek -----------------------------------
     RB = R35s if R35s else R41
     for p in paths:
-        calls = path_calls(p)
+        calls = path_calls(p, expand=True)
         ds = len([c for c in calls if isinstance(c[2], str) and c[2].endswith('::push') and arg_loc(f, c[4], 0) == (1, 'stack')]) - \
             len([c for c in calls if isinstance(c[2], str) and c[2].endswith('::pop') and arg_loc(f, c[4], 0) == (1, 'stack')])
         di = len([c for c in calls if isinstance(c[2], str) and c[2].endswith('::push') and arg_loc(f, c[4], 0) == (1, 'inp')]) - \
@@ -290,7 +290,7 @@ def next_rules(ctx, R41, R42, R43, R44, R45, R35, R36, want_c03=True, want_c04=T
         wam = [t for _, t in f.calls() if (f.callee_decl(t) or '').endswith('Automaton::will_always_match')]
         ctx.check(R43, not wam, 'no-will-always-match', 'the traversal consults will_always_match: the result would depend on how precise that hint is', fn=f)
     for p in paths:
-        calls = path_calls(p)
+        calls = path_calls(p, expand=True)
         pop = [c for c in calls if isinstance(c[2], str) and c[2].endswith('::pop') and arg_loc(f, c[4], 0) == (1, 'stack')]
         took_empty = [d for d in p.decisions if d[2][0] == 'discr' and is_call(d[2][1], 'Option::<T>::take')]
         rv = p.ret() if p.end == 'return' else None
